@@ -153,4 +153,10 @@ theorem generate_group_population_eq (pop : List Agent) (ps g n : Nat) (wr : Boo
         simp only [bind, Except.bind, hr', ↓reduceIte, hs]
         rfl
 
+/-- **`get_pool_executor(mode, n_workers)`** as the source reads now: a pool of threads for the thread mode, a pool of processes for anything else
+(the callers only reach it in a pooled mode: the serial branches return before) -/
+theorem get_pool_executor_eq (m : Mode) (w : Option Int) :
+    Src.get_pool_executor m w = (match m with | .thread => Py.PoolKind.thread w | _ => Py.PoolKind.process w) := by
+  cases m <;> rfl
+
 end R10
